@@ -19,8 +19,21 @@ class Collector:
         self.items = []      # (clause, goal_term, pc_snapshot, props, note)
         self.covers = set()
 
-    def prove(self, clause, goal, props=None, note=None):
+    def prove(self, clause, goal, props=None, note=None, outputs=()):
         self.items.append((clause, goal, list(self.c.pc), props, note, list(self.c.qhyps)))
+        if props and "C07" in props and not getattr(self.c, "concrete", False) and "tolerance" not in clause \
+                and "raw" not in clause:
+            # C07 (unit independence): a postcondition that relates SI magnitudes of outputs to SI magnitudes of inputs
+            # must not mention any unit symbol or unit factor (inputs are pairs <SI magnitude, unit symbol>).
+            # `outputs`: the terms computed by the code under test; they are opaque here (the statement constrains them)
+            g2 = goal
+            if outputs and isinstance(goal, z3.ExprRef):
+                subs = [(sym.term_of(o), z3.Real(f"output!{k}")) for k, o in enumerate(outputs) if isinstance(sym.term_of(o), z3.ExprRef)]
+                if subs:
+                    g2 = z3.substitute(goal, *subs)
+            units = mentions_units(g2)
+            self.items.append((clause + "#statement-is-unit-free", z3.BoolVal(not units), [], ("C07",),
+                               f"mentions {units}" if units else None, []))
 
     def cover(self, clause):
         self.covers.add(clause)
@@ -232,6 +245,43 @@ def discharge_batch(pc, goals, inputs, qhyps, timeout_ms):
     return agg, prepared
 
 
+def mentions_units(goal):
+    """names of unit symbols / unit-factor functions occurring in a goal"""
+    from .logic import flatten_goal, Via, Forall
+    found = set()
+    seen = set()
+
+    def walk(e):
+        stack = [e]
+        while stack:
+            x = stack.pop()
+            if x.get_id() in seen:
+                continue
+            seen.add(x.get_id())
+            if z3.is_app(x):
+                k = x.decl().kind()
+                if k in (z3.Z3_OP_GT, z3.Z3_OP_LT, z3.Z3_OP_GE, z3.Z3_OP_LE) and x.num_args() == 2:
+                    a, b = x.arg(0), x.arg(1)
+                    # "the factor of a unit is positive" is a unit-independent truth, not a dependence on the unit
+                    if (z3.is_app(a) and a.decl().name().startswith("fac_") and z3.is_rational_value(b)) or \
+                            (z3.is_app(b) and b.decl().name().startswith("fac_") and z3.is_rational_value(a)):
+                        continue
+                nm = x.decl().name()
+                if k == z3.Z3_OP_UNINTERPRETED and (nm.startswith("fac_") or nm.startswith("u_") or "_unit" in nm):
+                    found.add(nm)
+                for i in range(x.num_args()):
+                    stack.append(x.arg(i))
+    try:
+        plain, qs = flatten_goal(goal)
+    except TypeError:
+        return []
+    for g in plain:
+        walk(g.goal if isinstance(g, Via) else g)
+    for q in qs:
+        walk(q._frozen)
+    return sorted(found)
+
+
 class Job:
     """One function under contract in one scenario.
 
@@ -279,7 +329,8 @@ def explore(job: Job, timeout_ms=10000, max_paths=50000):
             break
         paths += 1
         unknown_feas += c.unknown_feasibility
-        events.update(e for e in c.events if isinstance(e, tuple))
+        events.update(e for e in c.events if isinstance(e, tuple) and e and e[0] in ("op", "to", "cmp", "ctor", "unary")
+                      and all(isinstance(x, str) for x in e))
         for k in range(len(prefix), len(c.decisions)):
             taken, alt = c.decisions[k]
             if alt:
